@@ -22,6 +22,8 @@ type RangeProver struct {
 	Ld    uint
 	D     []*big.Int
 	V     []*big.Int // optional: hiders v_i chosen by the (cheating) prover; default random Lm-bit values
+	// ForceC, if set, replaces every commitment C_i by this value (e.g. 0 or N: not a group element)
+	ForceC *big.Int
 
 	v, dRand, vRand []*big.Int
 	v5, v5Rand      *big.Int
@@ -44,6 +46,9 @@ func (p *RangeProver) Commit() []*big.Int {
 		p.vRand[i] = RandBits(pk.Params.Lm + pk.Params.Lh + pk.Params.Lstatzk)
 		p.v5.Add(p.v5, new(big.Int).Mul(p.D[i], p.v[i]))
 		p.c[i] = mulmod(n, PowSigned(R, p.D[i], n), PowSigned(pk.S, p.v[i], n))
+		if p.ForceC != nil {
+			p.c[i] = new(big.Int).Set(p.ForceC)
+		}
 	}
 	p.v5Rand = RandBits(pk.Params.Lm + p.Ld + 2 + pk.Params.Lh + pk.Params.Lstatzk)
 	// power of R_index^m in mCorrect, with true integer arithmetic
@@ -56,6 +61,12 @@ func (p *RangeProver) Commit() []*big.Int {
 	out := []*big.Int{t}
 	for i := range p.D {
 		out = append(out, mulmod(n, PowSigned(R, p.dRand[i], n), PowSigned(pk.S, p.vRand[i], n)))
+	}
+	if p.ForceC != nil && new(big.Int).GCD(nil, nil, p.ForceC, n).Cmp(one) != 0 && new(big.Int).Mod(p.ForceC, n).Sign() == 0 {
+		// C_i = 0 mod N: whatever the responses are, a verifier that multiplies C_i into its reconstruction gets 0 everywhere
+		for i := range out {
+			out[i] = big.NewInt(0)
+		}
 	}
 	return out
 }
